@@ -487,6 +487,7 @@ structure EncObs where
   rev : Map
   tag : Unmapped
   attrs : List Unmapped
+  dropped : Bool := false   -- the converter refused the item (`encVisitG` only): it is not in the produced tree
   deriving Repr
 
 /-- `name_table` argument of `unmap_qname` for attribute keys (`xsd_element.attributes`): only a bare local
@@ -529,5 +530,86 @@ def encodeDoc (v : Variant) (mode : Mode) (tab : Nat → String → Bool) (item 
   | .node id key isMap xmlns _ _ =>
     let ns := if isMap then (setContext v mode e0 id 0 xmlns).m.ns else e0.ns
     encVisit v mode tab 0 (unmapQName ns [] false key) item e0
+
+/-! ### the encoders as they are in the tree, with the mechanisms of the listed findings behind flags -/
+
+/-- What the encoder needs to know of the schema: whether an element name has a declaration (otherwise it is
+    admitted by a lax wildcard and typed xs:anyType, whose content is again a wildcard and which declares no
+    attribute), and the unqualified attributes the type of a declared element declares. -/
+structure EncSchema where
+  declared : QN → Bool
+  unq : QN → String → Bool
+
+/-- The mechanisms behind the listed findings, each of which can be switched off (= repaired):
+    `f9`     `unmap_qname(key, xsd_element.attributes)` (base.py:473 …): an unprefixed attribute key that is not in
+             the element's attribute table is put into the default namespace (namespaces.py:342-348);
+    `f10`    validators/groups.py:1110, 1161, 1170: a child matched by an element WILDCARD whose resolved name has no
+             namespace is renamed with `get_qname(default_namespace, name)`, `default_namespace` = the converter's
+             default namespace when the parent's group starts;
+    `ownTag` JsonMLConverter.element_encode (jsonml.py:100-104): the item's own key is resolved again after its
+             context is set and the item is refused ("Unmatched tag") when that is not the element it was matched to. -/
+structure EncFlags where
+  f9 : Bool := true
+  f10 : Bool := true
+  ownTag : Bool := false
+  deriving Repr, DecidableEq
+
+def tagDeclared (sch : EncSchema) : Unmapped → Bool
+  | .name q => sch.declared q
+  | .unknownPrefix _ _ => false
+
+/-- the attribute table lookup of `unmap_qname` for the element encoded under `tag` -/
+def attrInTableG (fl : EncFlags) (sch : EncSchema) (tag : Unmapped) : PName → Bool
+  | .loc l => !fl.f9 || (match tag with
+      | .name q => sch.declared q && sch.unq q l
+      | .unknownPrefix _ _ => false)
+  | _ => false
+
+/-- groups.py:1155-1161 for a child of an element whose content is a wildcard (`wildParent`): a resolved name in
+    no namespace takes the parent's default namespace. -/
+def f10Rename (fl : EncFlags) (wildParent : Bool) (pns : Map) (t : Unmapped) : Unmapped :=
+  if fl.f10 && wildParent then
+    match t with
+    | .name q =>
+      if q.ns = "" then
+        match pns.get "" with
+        | some d => if d = "" then t else .name ⟨d, q.loc⟩
+        | none => t
+      else t
+    | _ => t
+  else t
+
+mutual
+/-- `encVisit` with the schema oracle and the mechanisms of `EncFlags`.  `tag` is the name the validators matched
+    the item to (resolved by the parent, possibly renamed by `f10Rename`). -/
+def encVisitG (v : Variant) (mode : Mode) (fl : EncFlags) (sch : EncSchema) (level : Nat) (tag : Unmapped) :
+    Item → Mapper → Mapper × List EncObs
+  | .node id key isMap xmlns attrs children, m =>
+    if isMap then
+      let r := setContext v mode m id level xmlns
+      if fl.ownTag && unmapQName r.m.ns [] false key != tag then
+        (r.m, [{ id, level, ns := r.m.ns, rev := r.m.rev, tag, attrs := [], dropped := true }])
+      else
+        let as := attrs.map fun k => unmapQName r.m.ns [] (attrInTableG fl sch tag k) k
+        let (m2, obs) := encVisitListG v mode fl sch (level + 1) r.m.ns (!tagDeclared sch tag) children r.m
+        (m2, { id, level, ns := r.m.ns, rev := r.m.rev, tag, attrs := as } :: obs)
+    else (m, [{ id, level, ns := m.ns, rev := m.rev, tag, attrs := [] }])
+
+def encVisitListG (v : Variant) (mode : Mode) (fl : EncFlags) (sch : EncSchema) (level : Nat) (pns : Map)
+    (wildParent : Bool) : List Item → Mapper → Mapper × List EncObs
+  | [], m => (m, [])
+  | c :: cs, m =>
+    let t := f10Rename fl wildParent pns (unmapQName pns (Item.xmlns c) false (Item.key c))
+    let (m1, o1) := encVisitG v mode fl sch level t c m
+    let (m2, o2) := encVisitListG v mode fl sch level pns wildParent cs m1
+    (m2, o1 ++ o2)
+end
+
+def encodeDocG (v : Variant) (mode : Mode) (fl : EncFlags) (sch : EncSchema) (item : Item) (e0 : Mapper) :
+    Mapper × List EncObs :=
+  match item with
+  | .node id key isMap xmlns _ _ =>
+    let ns := if isMap then (setContext v mode e0 id 0 xmlns).m.ns else e0.ns
+    encVisitG v mode fl sch 0 (unmapQName ns [] false key) item e0
 
 end XsVerif.NsMapper
